@@ -500,3 +500,8 @@ def lock_held_at(lock, st, ev):
 for _cas in (False, True):
     register(Unit(P, f"NO-REINIT/initialize_table-{'cas' if _cas else 'local'}", h_initialize_table(_cas),
                   functions=[f"{MM}:MetadataManager.initialize_table", f"{MM}:MetadataManager._release_lock_safely"]))
+
+# WRITABLE: a table opened through a damaged / recovered pointer stays writable - the next version number comes from the
+# recovery-aware resolver (not from the raw pointer text), in MetadataManager.commit (harness shared with C01/C08)
+from contracts import commitpath as _cp  # noqa: E402
+register(Unit(P, "WRITABLE/MetadataManager.commit-local", _cp.h_mm_commit("local"), functions=[f"{MM}:MetadataManager.commit"], replay=_cp._replay_mm_commit))
